@@ -177,6 +177,14 @@ class Snapshot:
             raise Unsupported('parse tree types not in the SSA dump')
         self.tree = Iface(tt, self.conv(self.dump['tree'], tt))
         self.stream = self.conv(self.dump['stream'], st)
+        END_COL[0] = 0
+        for o in self.dump['objs'] or []:
+            if o['type'].endswith('.InputStream'):
+                for f in o['fields']:
+                    if isinstance(f, dict) and 's' in f:
+                        data = self.objs[f['s']].get('items') or []
+                        last = max((i for i, ch in enumerate(data) if ch == 10), default=-1)
+                        END_COL[0] = len(data) - (last + 1)
         return self
 
     def cell_for(self, oid, want_tid=None):
@@ -286,7 +294,12 @@ def bintr(*names):
 
 @bintr('(*%s.BaseLexer).GetCharPositionInLine' % ANTLR, '(*%s.PacketDslLexer).GetCharPositionInLine' % GRAMMAR)
 def _(M, a):
-    return 0      # columns are not part of any property; the lexer state is not modelled
+    # after lexing, the lexer stands at the end of the input: its column is the number of characters after the last line break
+    # (that is the value the visitor stores as the column of every diagnostic); taken from the snapshot loaded last
+    return END_COL[0]
+
+
+END_COL = [0]
 
 
 @bintr('time.Now')
